@@ -11,7 +11,7 @@ describe call, `B.step s op` the state after `op` (unchanged when the operation 
 `Meta` carries every stored metadata field: name, type, client, hostname, creation instant, data.
 
 The stored metadata is exactly the metadata given — for the memory backend with its documented
-defaulting (`Memory.storedMeta`: a falsy `name` becomes the bucket id). An update writes exactly the
+ defaulting (`Memory.storedMeta`: a falsy `name` becomes the bucket id). An update writes exactly the
 supplied fields: for the SQL backends every field that is not `None` (`Upd.apply`), for the memory
 backend every truthy field (`Memory.memApply`); `update_fields_*` spell this out field by field.
 The bucket-lookup `KeyError` of `Datastore.__getitem__` is raised by the driver exactly when the id
@@ -195,16 +195,19 @@ theorem missing_raises_and_unchanged_sqlite {s : Sqlite.St D} (hI : Sqlite.Inv s
 
 /-! ## Memory -/
 
+/-- the listing is the view: `(b, m)` is listed iff bucket `b` reads back with metadata `m` -/
 theorem listing_is_view_memory {s : Memory.St D} (hI : Memory.Inv s) (b : String) (m : Meta) :
     (b, m) ∈ Memory.bucketsOf s ↔ ∃ es, Memory.view s b = some (m, es) :=
   Memory.bucketsOf_eq hI b m
 
+/-- no bucket id is listed twice -/
 theorem listing_keys_unique_memory {s : Memory.St D} (hI : Memory.Inv s) :
     ((Memory.bucketsOf s).map (·.1)).Nodup := by
   unfold Memory.bucketsOf
   rw [List.map_map]
   exact hI.1
 
+/-- describing a bucket returns the metadata of the view -/
 theorem describe_is_view_memory {s : Memory.St D} (hI : Memory.Inv s) (b : String) :
     Memory.getMetadata s b =
       (match Memory.view s b with | some (m, _) => .ok m | none => .error .valueError) :=
@@ -241,6 +244,8 @@ theorem stored_meta_memory (b : String) (m : Meta) :
       (match Memory.truthy m.name with | some n => some n | none => some b) :=
   ⟨rfl, rfl, rfl, rfl, rfl, rfl⟩
 
+/-- an update changes the metadata to `memApply u m` (`update_fields_memory`), keeps the events, and
+    leaves every other bucket alone -/
 theorem update_only_supplied_memory {s : Memory.St D} (hI : Memory.Inv s) {b : String} {m : Meta}
     {es : List (Ev D)} (hv : Memory.view s b = some (m, es)) (u : Upd) :
     let s' := Memory.step s (.update b u)
@@ -256,6 +261,7 @@ theorem update_only_supplied_memory {s : Memory.St D} (hI : Memory.Inv s) {b : S
   refine ⟨hvb, ?_, fun b' h => Memory.only_step hI (.update b u) b' h⟩
   rw [Memory.getMetadata_eq hI', hvb]
 
+/-- deleting a bucket removes it from view and listing; every other bucket is unchanged -/
 theorem delete_removes_bucket_and_events_memory {s : Memory.St D} (hI : Memory.Inv s) {b : String}
     (hb : (Memory.view s b).isSome) :
     let s' := Memory.step s (.deleteBucket b)
@@ -271,11 +277,14 @@ theorem delete_removes_bucket_and_events_memory {s : Memory.St D} (hI : Memory.I
     fun b' h => Memory.only_step hI (.deleteBucket b) b' h⟩
   rw [Memory.getMetadata_eq hI', hvb]
 
+/-- delete then create under the same id: an empty bucket with the new metadata -/
 theorem recreate_is_empty_memory {s : Memory.St D} (hI : Memory.Inv s) (b : String) (m : Meta) :
     Memory.view (Memory.step (Memory.step s (.deleteBucket b)) (.create b m)) b =
       some (Memory.storedMeta b m, []) :=
   (create_listed_memory (Memory.inv_step hI _) b m).1
 
+/-- on a bucket that does not exist: not listed (the driver's KeyError); describe, update and
+    delete raise ValueError; the state is unchanged -/
 theorem missing_raises_and_unchanged_memory {s : Memory.St D} (hI : Memory.Inv s) {b : String}
     (hb : Memory.view s b = none) :
     (∀ m, (b, m) ∉ Memory.bucketsOf s) ∧
@@ -292,16 +301,20 @@ theorem missing_raises_and_unchanged_memory {s : Memory.St D} (hI : Memory.Inv s
 
 /-! ## Peewee -/
 
+/-- the listing is the view: `(b, m)` is listed iff bucket `b` reads back with metadata `m` -/
 theorem listing_is_view_peewee {s : Peewee.St D} (hI : Peewee.Inv s) (b : String) (m : Meta) :
     (b, m) ∈ Peewee.bucketsOf s ↔ ∃ es, Peewee.view s b = some (m, es) :=
   Peewee.bucketsOf_eq hI b m
 
+/-- no bucket id is listed twice -/
 theorem listing_keys_unique_peewee {s : Peewee.St D} (hI : Peewee.Inv s) :
     ((Peewee.bucketsOf s).map (·.1)).Nodup := by
   unfold Peewee.bucketsOf
   rw [List.map_map]
   exact hI.bids
 
+/-- describing a bucket returns the metadata of the view (the cache never names a key that is not
+    in the table) -/
 theorem describe_is_view_peewee {s : Peewee.St D} (hI : Peewee.Inv s) (b : String) :
     Peewee.getMetadata s b =
       (match Peewee.view s b with | some (m, _) => .ok m | none => .error .valueError) :=
@@ -323,6 +336,8 @@ theorem peewee_keys_coherent_reachable (ops : List (Op D)) :
       (Peewee.run ({} : Peewee.St D) ops).buckets.map (fun r => (r.bid, r.key)) :=
   (inv_foldl Peewee.step Peewee.Inv (fun _ op h => Peewee.inv_step h op) ops _ Peewee.inv_init).cache
 
+/-- creating a bucket under a fresh id: it reads back empty with exactly the metadata given, is
+    listed (once) with that metadata, and every other bucket and listing entry is unchanged -/
 theorem create_listed_peewee {s : Peewee.St D} (hI : Peewee.Inv s) {b : String}
     (hb : Peewee.view s b = none) (m : Meta) :
     let s' := Peewee.step s (.create b m)
@@ -340,12 +355,15 @@ theorem create_listed_peewee {s : Peewee.St D} (hI : Peewee.Inv s) {b : String}
   exact ⟨hvb, h1, h2, hfr, fun b' m' h =>
     listed_congr (Peewee.bucketsOf_eq hI) (Peewee.bucketsOf_eq hI') (hfr b' h) m'⟩
 
+/-- creating under an id that exists is rejected (IntegrityError) and changes nothing -/
 theorem create_existing_rejected_peewee {s : Peewee.St D} (hI : Peewee.Inv s) {b : String}
     (hb : (Peewee.view s b).isSome) (m : Meta) :
     Peewee.createBucket s b m = .error .integrity ∧ Peewee.step s (.create b m) = s := by
   have h := Peewee.createBucket_exists (m := m) hI hb
   exact ⟨h, by simp only [Peewee.step, h]⟩
 
+/-- an update changes the metadata to `u.apply m` (`update_fields_sql`; no field supplied: no
+    change), keeps the events, and leaves every other bucket alone -/
 theorem update_only_supplied_peewee {s : Peewee.St D} (hI : Peewee.Inv s) {b : String} {m : Meta}
     {es : List (Ev D)} (hv : Peewee.view s b = some (m, es)) (u : Upd) :
     let s' := Peewee.step s (.update b u)
@@ -359,6 +377,7 @@ theorem update_only_supplied_peewee {s : Peewee.St D} (hI : Peewee.Inv s) {b : S
   refine ⟨hvb, ?_, fun b' h => Peewee.only_step hI (.update b u) b' h⟩
   rw [Peewee.getMetadata_eq hI', hvb]
 
+/-- deleting a bucket removes it from view and listing; every other bucket is unchanged -/
 theorem delete_removes_bucket_and_events_peewee {s : Peewee.St D} (hI : Peewee.Inv s) {b : String}
     (hb : (Peewee.view s b).isSome) :
     let s' := Peewee.step s (.deleteBucket b)
@@ -383,6 +402,8 @@ theorem recreate_is_empty_peewee {s : Peewee.St D} (hI : Peewee.Inv s) {b : Stri
   (create_listed_peewee (Peewee.inv_step hI _)
     (delete_removes_bucket_and_events_peewee hI hb).1 m).1
 
+/-- on a bucket that does not exist: not listed (the driver's KeyError); describe, update and
+    delete raise ValueError; the state is unchanged -/
 theorem missing_raises_and_unchanged_peewee {s : Peewee.St D} (hI : Peewee.Inv s) {b : String}
     (hb : Peewee.view s b = none) :
     (∀ m, (b, m) ∉ Peewee.bucketsOf s) ∧
